@@ -255,6 +255,9 @@ func c20Case(c *ctx, fs []sfieldSpec, byValue bool, how string) {
 	k.Replay = how
 }
 
+// namedID is a defined type whose kind is string.
+type namedID string
+
 var c20Types = []reflect.Type{
 	reflect.TypeOf(""), reflect.TypeOf(int(0)), reflect.TypeOf(int8(0)), reflect.TypeOf(uint64(0)), reflect.TypeOf(false), reflect.TypeOf(time.Time{}),
 	reflect.TypeOf([]byte{}), reflect.TypeOf((*string)(nil)), reflect.TypeOf((*int16)(nil)), reflect.TypeOf((*time.Time)(nil)), reflect.TypeOf((*[]byte)(nil)),
@@ -267,7 +270,7 @@ func c20RandField(r *rng, i int) sfieldSpec {
 	f := sfieldSpec{name: fmt.Sprintf("F%d", i), typ: pick(r, c20Types)}
 	if r.chance(5, 6) {
 		f.hasJSON = true
-		f.jsonTag = pick(r, []string{"a", "b", "c", "id", "", "x-y", "name"})
+		f.jsonTag = pick(r, []string{"a", "b", "c", "id", "", "x-y", "name", "a,omitempty", "b,string", ",omitempty", "-"})
 	}
 	if r.chance(5, 6) {
 		f.hasAPI = true
@@ -299,6 +302,168 @@ func c20ID(r *rng) sfieldSpec {
 		f.hasAPI, f.apiTag = true, pick(r, []string{"things", "t", "a-b"})
 	}
 	return f
+}
+
+// c20NamedID: an ID field of a defined type whose kind is string.  The struct
+// descriptions of the model carry predeclared types only, so this is checked
+// against the property's text alone: if Check accepts, the type is built
+// under the tag's name and the wrapper agrees with it.
+func c20NamedID(c *ctx, idTag string) {
+	st := reflect.StructOf([]reflect.StructField{
+		{Name: "ID", Type: reflect.TypeOf(namedID("")), Tag: reflect.StructTag(fmt.Sprintf(`json:"id" api:%q`, idTag))},
+		{Name: "F0", Type: reflect.TypeOf(""), Tag: `json:"label" api:"attr"`},
+		{Name: "F1", Type: reflect.TypeOf(""), Tag: reflect.StructTag(fmt.Sprintf(`json:"owner" api:"rel,users,%s"`, idTag))},
+	})
+	var key, detail string
+	fail := func(k, d string) {
+		if key == "" {
+			key, detail = k, d
+		}
+	}
+	var checkErr error
+	if p, pv := guard(func() { checkErr = jsonapi.Check(reflect.New(st).Elem().Interface()) }); p {
+		fail("check-panics", fmt.Sprint(pv))
+		checkErr = fmt.Errorf("panic")
+	}
+	var typ jsonapi.Type
+	var berr error
+	pb, pvb := guard(func() { typ, berr = jsonapi.BuildType(reflect.New(st).Interface()) })
+	var w *jsonapi.Wrapper
+	pw, pvw := guard(func() { w = jsonapi.Wrap(reflect.New(st).Interface()) })
+	if checkErr != nil {
+		if !pb && berr == nil {
+			fail("rejected-struct-buildtype-succeeds", checkErr.Error())
+		}
+		if !pw {
+			fail("rejected-struct-wrap-succeeds", checkErr.Error())
+		}
+	} else {
+		switch {
+		case pb:
+			fail("accepted-struct-buildtype-panics", fmt.Sprint(pvb))
+		case berr != nil:
+			fail("accepted-struct-buildtype-fails", berr.Error())
+		case typ.Name != idTag || typ.Rels["owner"].FromType != idTag || len(typ.Attrs) != 1 || len(typ.Rels) != 1:
+			fail("built-type-differs-from-tags", fmt.Sprintf("name %q, owner.FromType %q, want %q", typ.Name, typ.Rels["owner"].FromType, idTag))
+		}
+		if pw {
+			fail("accepted-struct-wrap-panics", fmt.Sprint(pvw))
+		} else if p, pv := guard(func() {
+			if w.GetType().Name != idTag || !reflect.DeepEqual(w.Attrs(), typ.Attrs) || !reflect.DeepEqual(w.Rels(), typ.Rels) {
+				fail("wrapper-type-differs-from-built-type", fmt.Sprintf("wrapper says %q", w.GetType().Name))
+			}
+			// a value of the field's own type
+			w.Set("id", namedID("v1"))
+			w.Set("label", "x")
+			w.Set("owner", "u1")
+			if w.Get("id") != "v1" || w.GetID() != "v1" || w.Get("label") != "x" || w.Get("owner") != "u1" {
+				fail("accepted-struct-field-not-kept", fmt.Sprintf("id reads %q", w.Get("id")))
+			}
+			cp := w.Copy()
+			if cp.Get("id") != "v1" || cp.GetType().Name != idTag {
+				fail("accepted-struct-copy-differs", fmt.Sprintf("copy id %q type %q", cp.Get("id"), cp.GetType().Name))
+			}
+			_ = jsonapi.MarshalResource(w, "/", []string{"label", "owner"}, map[string][]string{idTag: {"owner"}})
+			_ = w.New()
+		}); p {
+			fail("accepted-struct-method-panics", fmt.Sprint(pv))
+		}
+	}
+	how := fmt.Sprintf("ID of a defined string type, api:%q, check=%v", idTag, checkErr == nil)
+	k := c.add("named-id", how, how, false, oL(nil), oL(nil), key, detail)
+	k.Replay = how
+}
+
+// Two struct types that print the same name ("main.rec"): declared in two functions.
+func c20RecA() any {
+	type rec struct {
+		ID string `json:"id" api:"recs"`
+		A  string `json:"a" api:"attr"`
+	}
+	return &rec{}
+}
+
+func c20RecB() any {
+	type rec struct {
+		ID string   `json:"id" api:"recs2"`
+		B  int      `json:"b" api:"attr"`
+		R  []string `json:"r" api:"rel,recs"`
+	}
+	return &rec{}
+}
+
+func c20RecBad() any {
+	type rec struct {
+		ID int            `json:"id" api:"recs"`
+		A  map[string]int `json:"a" api:"attr"`
+	}
+	return &rec{}
+}
+
+// c20SameName wraps both, in either order, after the other one has been used
+// (oracle only: each wrapper and built type must be its own struct's).
+func c20SameName(c *ctx, bFirst bool) {
+	var key, detail string
+	p, pv := guard(func() {
+		mk := []func() any{c20RecA, c20RecB}
+		want := []struct {
+			name  string
+			attrs []string
+			rels  []string
+			vals  map[string]any
+		}{{"recs", []string{"a"}, nil, map[string]any{"a": "x"}}, {"recs2", []string{"b"}, []string{"r"}, map[string]any{"b": 7, "r": []string{"1"}}}}
+		order := []int{0, 1, 0, 1}
+		if bFirst {
+			order = []int{1, 0, 1, 0}
+		}
+		for _, i := range order {
+			w := jsonapi.Wrap(mk[i]())
+			typ, err := jsonapi.BuildType(mk[i]())
+			if err != nil {
+				key, detail = "accepted-struct-buildtype-fails", err.Error()
+				return
+			}
+			var as, rs []string
+			for k := range w.Attrs() {
+				as = append(as, k)
+			}
+			for k := range w.Rels() {
+				rs = append(rs, k)
+			}
+			sort.Strings(as)
+			sort.Strings(rs)
+			if w.GetType().Name != want[i].name || typ.Name != want[i].name || !reflect.DeepEqual(as, want[i].attrs) || !reflect.DeepEqual(rs, want[i].rels) ||
+				!reflect.DeepEqual(w.Attrs(), typ.Attrs) || !reflect.DeepEqual(w.Rels(), typ.Rels) {
+				key, detail = "built-type-differs-from-tags", fmt.Sprintf("struct %d: wrapper says %s %v %v, type says %s", i, w.GetType().Name, as, rs, typ.Name)
+				return
+			}
+			for k, v := range want[i].vals {
+				w.Set(k, v)
+				if !reflect.DeepEqual(w.Get(k), v) {
+					key, detail = "accepted-struct-field-not-kept", k
+				}
+			}
+			_ = w.Copy()
+			_ = w.New()
+		}
+	})
+	if p {
+		key, detail = "accepted-struct-method-panics", fmt.Sprint(pv)
+	}
+	// a third one of that name, which Check rejects: Wrap must refuse it all the same
+	if key == "" {
+		var cerr error
+		_, _ = guard(func() { cerr = jsonapi.Check(reflect.ValueOf(c20RecBad()).Elem().Interface()) })
+		if pw, _ := guard(func() { jsonapi.Wrap(c20RecBad()) }); !pw && cerr != nil {
+			key, detail = "rejected-struct-wrap-succeeds", cerr.Error()
+		}
+		if _, berr := jsonapi.BuildType(c20RecBad()); berr == nil && cerr != nil {
+			key, detail = "rejected-struct-buildtype-succeeds", cerr.Error()
+		}
+	}
+	how := fmt.Sprintf("two struct types printing the same name, second first=%v", bFirst)
+	k := c.add("named-id", how, how, false, oL(nil), oL(nil), key, detail)
+	k.Replay = how
 }
 
 // wcopyCase: a struct-backed resource after a Set history, then Copy: the
@@ -371,11 +536,16 @@ func runWCopies(c *ctx) {
 
 func runC20(c *ctx) {
 	runWCopies(c)
+	for _, tag := range []string{"devices", "t", "a-b"} {
+		c20NamedID(c, tag)
+	}
+	c20SameName(c, false)
+	c20SameName(c, true)
 	goodID := sfieldSpec{name: "ID", typ: reflect.TypeOf(""), hasJSON: true, jsonTag: "id", hasAPI: true, apiTag: "things"}
 	// single-field variations, exhaustively: every type x every api tag x json tag forms
 	for _, t := range c20Types {
 		for _, api := range c20APITags {
-			for _, js := range []string{"a", "", "id"} {
+			for _, js := range []string{"a", "", "id", "a,omitempty"} {
 				f := sfieldSpec{name: "F0", typ: t, hasJSON: true, jsonTag: js, hasAPI: true, apiTag: api}
 				c20Case(c, []sfieldSpec{goodID, f}, false, "single-field")
 			}
